@@ -206,6 +206,13 @@ func (tr *Tr) call(fr *Frame, site ssa.Instruction, c *ssa.CallCommon, res *ssa.
 	}
 	// closure defined in this function
 	if ci, ok := fr.closures[c.Value]; ok {
+		tr.atCallAsserts(fr, site, ci.fn, c, args)
+		if ct := tr.P.contracts[ci.fn]; ct != nil && !ct.Inline {
+			tr.curBind = ci.bind
+			tr.setResult(fr, res, tr.callByContract(fr, site, ci.fn, ct, args, rt))
+			tr.curBind = nil
+			return
+		}
 		tr.setResult(fr, res, tr.inlineCall(fr, site, ci.fn, args, ci.bind))
 		return
 	}
@@ -695,6 +702,19 @@ func (tr *Tr) calleeEnv(fn *ssa.Function, ct *Contract, args []Val, pre, post *S
 	for i, p := range fn.Params {
 		env.vars[p.Name()] = EVal{V: args[i], T: p.Type()}
 	}
+	// captured variables of a closure under contract: visible by name (value read through the captured pointer)
+	for i, fv := range fn.FreeVars {
+		if i >= len(tr.curBind) {
+			break
+		}
+		b := tr.curBind[i]
+		if pt, ok := fv.Type().Underlying().(*types.Pointer); ok {
+			ls := shape(pt.Elem())
+			env.vars[fv.Name()] = EVal{V: tr.loadLeaves(post, ls, b[0], b[1]), T: pt.Elem()}
+		} else {
+			env.vars[fv.Name()] = EVal{V: b, T: fv.Type()}
+		}
+	}
 	for _, l := range ct.Lets {
 		env.macros[l.Label] = l.Expr
 	}
@@ -931,8 +951,8 @@ func (tr *Tr) calleeEffects(fr *Frame, site ssa.Instruction, fn *ssa.Function, c
 				declared = true
 			}
 		}
-		if !declared {
-			tr.obligeNamed("effect", e+"@"+fn.Name(), site.Pos(), tr.f.False(), "callee "+funcDisplay(fn)+" does not promise absence of effect "+e)
+		if !declared && tr.P.mayEffect(fn, e) {
+			tr.obligeNamed("effect", e+"@"+fn.Name(), site.Pos(), tr.f.False(), "callee "+funcDisplay(fn)+" may reach a source of effect "+e+" and does not promise its absence")
 		}
 	}
 }
@@ -1012,14 +1032,21 @@ func (tr *Tr) atCallAsserts(fr *Frame, site ssa.Instruction, sf *ssa.Function, c
 	nm := sf.Name()
 	fr.callOrd["at:"+nm]++
 	ord := fr.callOrd["at:"+nm] - 1
+	listed := false
+	matched := false
 	for _, ac := range fr.contract.AtCalls {
 		short := ac.Callee
 		if i := strings.LastIndex(short, "."); i >= 0 {
 			short = short[i+1:]
 		}
-		if short != nm || ac.Ordinal != ord {
+		if short != nm {
 			continue
 		}
+		listed = true
+		if ac.Ordinal != ord {
+			continue
+		}
+		matched = true
 		env := tr.envFor(fr, nil, fr.st)
 		for i, p := range sf.Params {
 			env.vars["arg"+fmt.Sprint(i)] = EVal{V: args[i], T: p.Type()}
@@ -1039,6 +1066,10 @@ func (tr *Tr) atCallAsserts(fr *Frame, site ssa.Instruction, sf *ssa.Function, c
 			}
 			tr.obligeNamed("assert@"+nm, fmt.Sprintf("%d.%s", ord, lbl), site.Pos(), t, "call-site assertion: "+a.Src)
 		}
+	}
+	if listed && !matched {
+		// the contract enumerates the call sites of this callee: an additional one has no specification
+		tr.obligeNamed("assert@"+nm, fmt.Sprintf("%d.unlisted", ord), site.Pos(), tr.f.False(), "call site #"+fmt.Sprint(ord)+" of "+nm+" is not covered by the contract's call-site assertions")
 	}
 }
 
